@@ -14,6 +14,6 @@ def run(tier, seed):
     rep.explanation = ("Mixed. Deductive: the guards - rule calls in ParserBlock.tokenize, ParserInline.tokenize and skipToken happen only under level < maxNesting (GUARD at the dispatch call sites); skipToken always advances, "
                        "memoises every result (cache[pos] == new pos, also for failed skips) and returns from the cache without calling a rule; both tokenizers terminate (DEC). Bounded for the growth claim: 'work per character stays bounded as inputs grow' is an amortised resource bound over whole runs; no potential-function proof is attempted, it is decided "
                        "only by the bounded cost contract on the real render. Deductive part (when contracts.guards is present): the nesting guards (rule calls only under level < maxNesting; skipToken memo).")
-    rep.trusted_base = STD_TRUST
-    rep.assumptions = ["cost measured as python-level calls into markdown_it (deterministic)"]
+    rep.trusted_base += STD_TRUST
+    rep.assumptions += ["cost measured as python-level calls into markdown_it (deterministic)"]
     return rep
